@@ -16,7 +16,7 @@ variable {K V : Type} [DecidableEq K]
 structure Ref (K V : Type) where
   lru    : Bool
   max    : Nat
-  onMiss : Option (K → V)
+  onMiss : Option (K → OmRes V)
   ents   : List (K × V)
   stamp  : K → Nat
   now    : Nat
@@ -25,8 +25,11 @@ structure Ref (K V : Type) where
   soft   : Nat
   omLog  : List K
 
-def Ref.init (lru : Bool) (max : Nat) (onMiss : Option (K → V)) : Ref K V :=
+def Ref.initP (lru : Bool) (max : Nat) (onMiss : Option (K → OmRes V)) : Ref K V :=
   ⟨lru, max, onMiss, [], fun _ => 0, 0, 0, 0, 0, []⟩
+
+def Ref.init (lru : Bool) (max : Nat) (onMiss : Option (K → V)) : Ref K V :=
+  Ref.initP lru max (onMiss.map totalOm)
 
 /-- the key with the smallest stamp -/
 def oldest (stamp : K → Nat) : List K → Option K
@@ -53,7 +56,8 @@ def Ref.assign (s : Ref K V) (k : K) (v : V) : Ref K V :=
 def Ref.remove (s : Ref K V) (k : K) : Ref K V := { s with ents := eraseKey k s.ents }
 
 /-- a lookup: found -> hit (and, for LRU, the key becomes the most recent one);
-    not found -> miss, and `on_miss` (if any) supplies the value, which is cached -/
+    not found -> miss, and `on_miss` (if any) is called: the value it returns is cached; if it
+    raises, the exception propagates and nothing is cached -/
 def Ref.lookup (s : Ref K V) (k : K) : Ref K V × Out K V (Ref K V) :=
   match C02.lookup k s.ents with
   | some v =>
@@ -63,7 +67,10 @@ def Ref.lookup (s : Ref K V) (k : K) : Ref K V × Out K V (Ref K V) :=
     match s.onMiss with
     | none => ({ s with miss := s.miss + 1 }, .keyError)
     | some f =>
-      (({ s with miss := s.miss + 1, omLog := s.omLog ++ [k] } : Ref K V).assign k (f k), .val (f k))
+      match f k with
+      | .ret v => (({ s with miss := s.miss + 1, omLog := s.omLog ++ [k] } : Ref K V).assign k v, .val v)
+      | .keyError => ({ s with miss := s.miss + 1, omLog := s.omLog ++ [k] }, .keyError)
+      | .error => ({ s with miss := s.miss + 1, omLog := s.omLog ++ [k] }, .raised)
 
 def Ref.assignAll (s : Ref K V) (l : List (K × V)) : Ref K V :=
   l.foldl (fun s p => s.assign p.1 p.2) s
